@@ -3,7 +3,7 @@
    (what the code does) and C08/Spec.v (what a valid file is; wf_state). *)
 From Coq Require Import List NArith ZArith Bool String Ascii Permutation Reals.
 From T4V Require Import Base.Str C08.Model C08.Spec C08.ProofsSets C08.ProofsWrite C08.ProofsPrune
-     C08.ProofsTail C08.SurfEq C08.Parse C08.ProofsChars C08.ProofsParse C08.ProofsGiven C08.ProofsEnd C08.CheckText C08.Check C08.ProofsRefute C08.LinkC01a C08.LinkC01b C08.LinkC01c C08.LinkC01 C08.ProofsHelpers C08.LinkFull.
+     C08.ProofsTail C08.SurfEq C08.Parse C08.ProofsChars C08.ProofsParse C08.ProofsGiven C08.ProofsEnd C08.CheckText C08.Check C08.ProofsRefute C08.LinkC01a C08.LinkC01b C08.LinkC01c C08.LinkC01 C08.ProofsHelpers C08.LinkC09 C08.LinkFull.
 Import ListNotations.
 
 (* VolumeT4.__str__: for EVERY volume (no hypothesis), each declared count equals the
@@ -305,6 +305,39 @@ Theorem C08_convert_wf_full_linked :
                  Forall finite (state_numbers w) -> Forall finite (file_numbers f)).
 Proof. exact convert_wf_full_linked. Qed.
 Print Assumptions C08_convert_wf_full_linked.
+
+(* round 4: "normalize_float is idempotent on the stored densities" linked with C09
+   (C09.ProofsIdem.normalize_float_idempotent = C09_normalize_float_idempotent): it holds
+   whenever the stored density is an output of C09's normalize_float and the writers'
+   normalisation is that function (checked on every snapshot by tie:density) *)
+Theorem C08_norm_fixed_linked : forall c : cell, density_from_c09 c -> norm_fixed c.
+Proof. exact norm_fixed_linked. Qed.
+Print Assumptions C08_norm_fixed_linked.
+
+(* the fully linked statement with that hypothesis discharged too.  What is still ASSUMED
+   about the tables (stage0_rest4): the volume table is not empty; the skipped cells are
+   numbers below the counter outside the conversion list; the material side (a card and a
+   live cell for the material of every non-virtual volume: false for the open findings
+   material_without_card and negative_importance_no_composition); the strings are words *)
+Theorem C08_convert_wf_all_linked :
+  forall (A : Type) (dic : list (Z * list (A * Z))) num mat
+         (surfs0 : stable (spayload R)) fuel cells u0 u1 todo cnt0 s' skip_dedup (w : wstate (spayload R)),
+  M2.number_items dic = M2.Ok (num, mat) ->
+  (forall k, In k (P2.keys dic) -> (0 < k)%Z) -> NoDup (P2.keys dic) ->
+  Forall (fun kv => P2.unit_sides (snd kv)) dic ->
+  keys surfs0 = map fst num -> (exists k, In k (keys surfs0) /\ (0 < k)%Z) ->
+  insert_helpers surfs0 (helper_plane "1" 1%R) (helper_plane "-1" (-1)%R) = Ok (w_surfs w, u0, u1) ->
+  M1.convert_cells fuel cells mat u0 u1 todo (M1.mkSt cnt0 [] [] []) = M1.Ok s' ->
+  w_vols w = tr_table (M1.vols s') ->
+  stage0_rest4 cnt0 todo w ->
+  exists o, convert_tail Req_payload skip_dedup u0 u1 w = Ok o /\
+    (o = Died false [] EValue \/
+     exists f, (o = Complete f \/ exists e, o = Raised f e) /\
+               wf_file f /\ parse_t4 (print_t4 f) = Some f /\
+               forall finite : string -> Prop,
+                 Forall finite (state_numbers w) -> Forall finite (file_numbers f)).
+Proof. exact convert_wf_all_linked. Qed.
+Print Assumptions C08_convert_wf_all_linked.
 
 (* ---- open defects: a composition that is named but not written.  The hypothesis cell_named
    (s0_cells / ws_cells) of the theorems above cannot be dropped: with closed tables, a cell
